@@ -140,7 +140,12 @@ class DocText:
         if rename_frags:
             # the same document with the fragment names permuted (F1 <-> F2): names carry no meaning
             names = sorted({n["name"] for n in nodes if n["k"] == "FRAG"})
-            perm = dict(zip(names, names[1:] + names[:1]))
+            if rename_frags == "op":
+                # fragments take the names of the document's operations (two separate name spaces: still the same document)
+                opnames = sorted({n["name"] for n in nodes if n["k"] == "OP" and n["name"]})
+                perm = dict(zip(names, opnames))
+            else:
+                perm = dict(zip(names, names[1:] + names[:1]))
             nodes = [dict(n, name=perm.get(n["name"], n["name"])) if n["k"] in ("FRAG", "S") else n for n in nodes]
         self.nodes = nodes
         self.layout = layout
